@@ -17,7 +17,7 @@ import (
 // inherits from it.
 func c04CacheOwnership(c *core.Check) {
 	p := c.Prog
-	r := c.Rule("R14", "computed values are not shared between styles: in html/tree no slice or map field of a propsCache is assigned the same field of another propsCache, directly, re-sliced, merged or as the first argument of append (a fresh make/copy/append onto own storage is required)", 4)
+	r := c.Rule("R14", "computed values are not shared between styles: in html/tree no slice or map field of a propsCache is assigned the same field of another propsCache, directly, re-sliced, merged or as the first argument of append (a fresh make/copy/append onto own storage is required)", 2)
 	isCache := func(t types.Type) bool {
 		if pt, ok := t.(*types.Pointer); ok {
 			t = pt.Elem()
